@@ -69,9 +69,11 @@ class Selector(metaclass=InternedMC):
             if v.capture in captures:
                 cap = captures[v.capture]
                 for value in cap.values:
-                    match = v.value == value or (
-                        isinstance(v.value, MatchFunction) and v.value.fn(value)
-                    )
+                    if isinstance(v.value, MatchFunction):
+                        # (not ==: the value's own __eq__ must not decide)
+                        match = v.value.fn(value)
+                    else:
+                        match = v.value == value
                     if not match:
                         return False
         return True
@@ -814,6 +816,12 @@ class MatchFunction:
                 f"The condition after ~ must be a function (got {fn!r})"
             )
         self.fn = fn
+
+    def __eq__(self, other):
+        return type(other) is MatchFunction and other.fn is self.fn
+
+    def __hash__(self):
+        return hash(id(self.fn))
 
 
 class MatchIdentity(MatchFunction):
